@@ -247,10 +247,11 @@ def designOf (i : Inst) : Design := designOfBlocks (blocksInst i)
 
 /-! ### consistency of the tables (decidable; evaluated by the driver for every accepted program) -/
 
-/-- a reference to sequence `x` resolves to a sequence line with a template of `l` letters -/
-def Resolves (doc : DesDoc) (x : String) (l : Nat) : Prop := ∃ q ∈ seqLines doc, q.1 = x ∧ q.2.length = l
+/-- a reference to sequence `x` resolves to one of `lines` (name, template) with a template of `l` letters -/
+def Resolves (lines : List (String × List Char)) (x : String) (l : Nat) : Prop :=
+  ∃ q ∈ lines, q.1 = x ∧ q.2.length = l
 
-instance (doc : DesDoc) (x : String) (l : Nat) : Decidable (Resolves doc x l) := by
+instance (lines : List (String × List Char)) (x : String) (l : Nat) : Decidable (Resolves lines x l) := by
   unfold Resolves; infer_instance
 
 /-- a component's structures are made of its own strands, and every base sequence they mention is one of
@@ -258,26 +259,28 @@ instance (doc : DesDoc) (x : String) (l : Nat) : Decidable (Resolves doc x l) :=
 def CompOk (st : Comp.St) : Prop :=
   (∀ e ∈ st.structs, (∀ n ∈ e.strands, (st.findStrand n).isSome = true) ∧
       e.bases = e.strands.flatMap (fun n => match st.findStrand n with | some t => t.bases | none => [])) ∧
-  (∀ e ∈ st.structs, ∀ b ∈ e.bases, b.len ≠ 0 → Resolves (compDoc st) (st.pfx ++ b.name) b.len)
+  (∀ e ∈ st.structs, ∀ b ∈ e.bases, b.len ≠ 0 → Resolves (seqLines (compDoc st)) (st.pfx ++ b.name) b.len)
 
 instance (st : Comp.St) : Decidable (CompOk st) := by unfold CompOk; infer_instance
 
-/-- a bound port has the signal's length and its sequences are emitted somewhere in the document -/
-def EntryOk (doc : DesDoc) (pfx : String) (len : Nat) (e : SigEntry) : Prop :=
+/-- a bound port has the signal's length and its sequences are domains of the program (`doms`: the
+    components' sequences and the signals of sub-systems — not an auxiliary `-_WC` sequence) -/
+def EntryOk (doms : List (String × List Char)) (pfx : String) (len : Nat) (e : SigEntry) : Prop :=
   match e.port with
   | .seq i bases =>
-    if i.isSup then ((bases.map (·.len)).sum = len ∧ ∀ b ∈ bases, b.len ≠ 0 → Resolves doc (entryPfx pfx e ++ b.name) b.len)
-    else (i.len = len ∧ Resolves doc (entryPfx pfx e ++ i.name) len)
-  | .sig n => Resolves doc (entryPfx pfx e ++ n) len
+    if i.isSup then ((bases.map (·.len)).sum = len ∧ ∀ b ∈ bases, b.len ≠ 0 → Resolves doms (entryPfx pfx e ++ b.name) b.len)
+    else (i.len = len ∧ Resolves doms (entryPfx pfx e ++ i.name) len)
+  | .sig n => Resolves doms (entryPfx pfx e ++ n) len
 
-instance (doc : DesDoc) (pfx : String) (len : Nat) (e : SigEntry) : Decidable (EntryOk doc pfx len e) := by
+instance (doms : List (String × List Char)) (pfx : String) (len : Nat) (e : SigEntry) :
+    Decidable (EntryOk doms pfx len e) := by
   unfold EntryOk; split <;> infer_instance
 
-def BlockOk (doc : DesDoc) : Block → Prop
+def BlockOk (doms : List (String × List Char)) : Block → Prop
   | .comp st => CompOk st
-  | .signal pfx _ len es => ∀ e ∈ es, EntryOk doc pfx len e
+  | .signal pfx _ len es => ∀ e ∈ es, EntryOk doms pfx len e
 
-instance (doc : DesDoc) (b : Block) : Decidable (BlockOk doc b) := by
+instance (doms : List (String × List Char)) (b : Block) : Decidable (BlockOk doms b) := by
   cases b <;> unfold BlockOk <;> infer_instance
 
 /-- names are unique across the tree and every block is consistent -/
@@ -285,12 +288,12 @@ structure BlocksOk (bs : List Block) : Prop where
   seqNames : ((seqLines (docOf bs)).map (·.1)).Nodup
   structNames : ((assignLines (docOf bs)).map (·.1)).Nodup
   strandNames : ((designOfBlocks bs).strands.map (·.1)).Nodup
-  blocks : ∀ b ∈ bs, BlockOk (docOf bs) b
+  blocks : ∀ b ∈ bs, BlockOk (designOfBlocks bs).domains b
 
 instance (bs : List Block) : Decidable (BlocksOk bs) :=
   decidable_of_iff
     ((((seqLines (docOf bs)).map (·.1)).Nodup ∧ ((assignLines (docOf bs)).map (·.1)).Nodup) ∧
-     (((designOfBlocks bs).strands.map (·.1)).Nodup ∧ ∀ b ∈ bs, BlockOk (docOf bs) b))
+     (((designOfBlocks bs).strands.map (·.1)).Nodup ∧ ∀ b ∈ bs, BlockOk (designOfBlocks bs).domains b))
     ⟨fun h => ⟨h.1.1, h.1.2, h.2.1, h.2.2⟩, fun h => ⟨⟨h.1, h.2⟩, h.3, h.4⟩⟩
 
 end Pepper.Des
